@@ -144,7 +144,22 @@ var errHandler = stderrors.New("scripted handler failure")
 type invoked struct {
 	handler int
 	value   any
+	shown   string // the received value, printed at the moment of the invocation
+	equalOK bool   // whether it equalled the sent value at that moment (handlers scribble over it afterwards)
 	orig    *message.Message
+}
+
+// scribble overwrites the value a handler was given: handlers own what they receive (enrich it, normalise it, reuse it),
+// and what one handler does to its value must not be seen by the next handler of the same message.
+func scribble(v any) {
+	if pm, ok := v.(proto.Message); ok {
+		proto.Reset(pm)
+		return
+	}
+	rv := reflect.ValueOf(v)
+	if rv.Kind() == reflect.Ptr && !rv.IsNil() {
+		rv.Elem().Set(reflect.Zero(rv.Elem().Type()))
+	}
 }
 
 func TestCQRSDispatch(t *testing.T) {
@@ -204,9 +219,11 @@ func TestCQRSDispatch(t *testing.T) {
 		}
 		var calls []invoked
 		var failNow map[int]bool
+		var curEqual func(received any) bool // set per item: compares with the value that was sent
 		mkFn := func(idx int) func(ctx context.Context, v any) error {
 			return func(ctx context.Context, v any) error {
-				calls = append(calls, invoked{handler: idx, value: v, orig: cqrs.OriginalMessageFromCtx(ctx)})
+				calls = append(calls, invoked{handler: idx, value: v, shown: fmt.Sprintf("%v", v), equalOK: curEqual != nil && curEqual(v), orig: cqrs.OriginalMessageFromCtx(ctx)})
+				scribble(v)
 				if failNow[idx] {
 					return errHandler
 				}
@@ -415,6 +432,15 @@ func TestCQRSDispatch(t *testing.T) {
 					t.Fatalf("violation: published payload does not decode to the sent value: %v (%v -> %v)", err, v, back)
 				}
 				msg = pm.Copy()
+				if !useProto && it.Kind == 0 && rapid.IntRange(0, 3).Draw(t, "producerAddsAFieldTheHandlerTypeLacks") == 0 && len(msg.Payload) > 1 && msg.Payload[len(msg.Payload)-1] == '}' {
+					// a newer producer: same name, a valid document with one more field. The name matches, so the handler
+					// is invoked (with the fields it knows) exactly as for any other message of that name.
+					sep := ","
+					if string(msg.Payload) == "{}" {
+						sep = ""
+					}
+					msg.Payload = append(append([]byte(nil), msg.Payload[:len(msg.Payload)-1]...), []byte(sep+`"zz_added_by_a_newer_producer":{"x":[1,2]}}`)...)
+				}
 				if it.Kind == 2 {
 					msg.Payload = append([]byte(nil), ti.malformed...)
 					if !useProto && rapid.Bool().Draw(t, "validDocumentPlusTrailingData") {
@@ -476,6 +502,11 @@ func TestCQRSDispatch(t *testing.T) {
 			calls = nil
 			hookCalls = 0
 			failNow = it.Fail
+			curEqual = nil
+			if v != nil {
+				sentV, sentTi := v, ti
+				curEqual = func(received any) bool { return sentTi.equal(sentV, received) }
+			}
 			sub := subsByName[targets[it.Target]]
 			if !sub.WaitSubs(1, lib.Live) {
 				t.Fatalf("harness: no subscription for %s", targets[it.Target])
@@ -497,8 +528,8 @@ func TestCQRSDispatch(t *testing.T) {
 				if c.handler != wantInvoked[k] {
 					t.Fatalf("violation: invoked handlers %v, model says %v (order/selection)\n%s", handlerIdx(calls), wantInvoked, desc)
 				}
-				if !ti.equal(v, c.value) {
-					t.Fatalf("violation: handler %d received %v, sent value is %v\n%s", c.handler, c.value, v, desc)
+				if !c.equalOK {
+					t.Fatalf("violation: handler %d received %s, sent value is %v\n%s", c.handler, c.shown, v, desc)
 				}
 				if c.orig != msg {
 					t.Fatalf("violation: OriginalMessageFromCtx is not the consumed message\n%s", desc)
